@@ -46,7 +46,7 @@ def run(tier):
                                   for o in ((0, 2) if tier == "quick" else (-1, 0, 1, 2))])
     finally:
         os.environ.pop("NUMBA_ENABLE_CUDASIM", None)
-    asserted = sum(1 for t in trs for e in t["ev"] if e["t"] == "delay" and e["L"] >= 32 * e["d"])
+    asserted = sum(1 for t in trs for e in t["ev"] if e["t"] == "delay" and e["L"] >= 32 * e["d"] and e["K"] >= 4)
     V.set("delay_bins_asserted", asserted)
     if asserted == 0:
         raise tlc.TLCError("no delay bin satisfied the premise L >= 32 d (vacuous)")
